@@ -30,20 +30,20 @@ type gexpr struct {
 	Null bool // for opq: can it succeed without consuming?
 }
 
-func gSeq(k ...*gexpr) *gexpr  { return &gexpr{Op: "seq", Kids: k} }
-func gAlt(k ...*gexpr) *gexpr  { return &gexpr{Op: "alt", Kids: k} }
-func gQ(k *gexpr) *gexpr       { return &gexpr{Op: "query", Kids: []*gexpr{k}} }
-func gStar(k *gexpr) *gexpr    { return &gexpr{Op: "star", Kids: []*gexpr{k}} }
-func gPlus(k *gexpr) *gexpr    { return &gexpr{Op: "plus", Kids: []*gexpr{k}} }
-func gAnd(k *gexpr) *gexpr     { return &gexpr{Op: "and", Kids: []*gexpr{k}} }
-func gNot(k *gexpr) *gexpr     { return &gexpr{Op: "not", Kids: []*gexpr{k}} }
-func gPush(k *gexpr) *gexpr    { return &gexpr{Op: "push", Kids: []*gexpr{k}} }
-func gC(s string) *gexpr       { return &gexpr{Op: "char", S: s} }
-func gN(s string) *gexpr       { return &gexpr{Op: "name", S: s} }
-func gAct() *gexpr             { return &gexpr{Op: "act", S: "__act0()"} }
-func gPred() *gexpr            { return &gexpr{Op: "pred", S: "__pred0()"} }
-func gNil() *gexpr             { return &gexpr{Op: "nil"} }
-func gDot() *gexpr             { return &gexpr{Op: "dot"} }
+func gSeq(k ...*gexpr) *gexpr   { return &gexpr{Op: "seq", Kids: k} }
+func gAlt(k ...*gexpr) *gexpr   { return &gexpr{Op: "alt", Kids: k} }
+func gQ(k *gexpr) *gexpr        { return &gexpr{Op: "query", Kids: []*gexpr{k}} }
+func gStar(k *gexpr) *gexpr     { return &gexpr{Op: "star", Kids: []*gexpr{k}} }
+func gPlus(k *gexpr) *gexpr     { return &gexpr{Op: "plus", Kids: []*gexpr{k}} }
+func gAnd(k *gexpr) *gexpr      { return &gexpr{Op: "and", Kids: []*gexpr{k}} }
+func gNot(k *gexpr) *gexpr      { return &gexpr{Op: "not", Kids: []*gexpr{k}} }
+func gPush(k *gexpr) *gexpr     { return &gexpr{Op: "push", Kids: []*gexpr{k}} }
+func gC(s string) *gexpr        { return &gexpr{Op: "char", S: s} }
+func gN(s string) *gexpr        { return &gexpr{Op: "name", S: s} }
+func gAct() *gexpr              { return &gexpr{Op: "act", S: "__act0()"} }
+func gPred() *gexpr             { return &gexpr{Op: "pred", S: "__pred0()"} }
+func gNil() *gexpr              { return &gexpr{Op: "nil"} }
+func gDot() *gexpr              { return &gexpr{Op: "dot"} }
 func gOpq(nullable bool) *gexpr { return &gexpr{Op: "opq", Null: nullable} }
 
 type gb struct {
@@ -337,6 +337,10 @@ func diagCases() []diagCase {
 		dc("duplicate definition", "rule defined three times, followed by another rule", "A", gSeq(gC("a"), gN("B")), "A", gC("b"), "A", gC("c"), "B", gC("d")),
 		dc("duplicate definition", "two different rules defined twice, with an action", "S", gSeq(gN("A"), gN("B"), gAct()), "A", gC("a"), "A", gC("b"), "B", gC("c"), "B", gC("d")),
 		dc("undefined / unused", "referenced rule with an explicitly empty body is defined", "S", gSeq(gN("B"), gC("x")), "B", gNil()),
+		// names are data: a rule is reported whatever it is called, also when its name starts like a name the generator makes up
+		dc("undefined / unused", "unused rules named like the generator's own: ActionList, Actions, Action, PegTextual", "S", gDot(), "ActionList", gC("u"), "Actions", gSeq(gC("v"), gAct()), "Action", gC("w"), "PegTextual", gC("x")),
+		dc("undefined / unused", "undefined names that start like the generator's own: ActionList, PegTextual", "S", gSeq(gQ(gN("ActionList")), gQ(gN("PegTextual")), gDot())),
+		dc("left recursion", "rule named like the generator's own: ActionList <- ActionList 'x'", "ActionList", gSeq(gN("ActionList"), x())),
 		dc("duplicate definition", "rule defined twice, referenced", "S", gSeq(gN("A"), gNot(gDot())), "A", gC("b"), "A", gC("c")),
 	}
 }
